@@ -140,6 +140,15 @@ class Tr:
     # returns (lean_text, type) with type in {"Int", "Rat", "Prop"}
     def tr(self, n):
         d = dotted(n)
+        if d is None and not isinstance(n, ast.Constant):
+            # `rename` may also name a whole sub-expression by its source text as printed by
+            # ast.unparse, e.g. {"window['time_min']": "tmin", "self.grid.grid_size()['time']": "T"}
+            try:
+                u = ast.unparse(n)
+            except Exception:  # noqa
+                u = None
+            if u in self.rename:
+                d = u
         if d is not None:
             d2 = self.rename.get(d, d)
             if d2 in self.types:
@@ -172,6 +181,9 @@ class Tr:
                     return b, ("RatCast" if tb == "Int" else tb)
                 if tb == "RatInt" and b == "(1 : Rat)":
                     return a, ("RatCast" if ta == "Int" else ta)
+            # element-wise `&` / `|` of comparisons (NumPy boolean arrays read pointwise)
+            if isinstance(n.op, (ast.BitAnd, ast.BitOr)) and ta == "Prop" and tb == "Prop":
+                return f"({a} {'∧' if isinstance(n.op, ast.BitAnd) else '∨'} {b})", "Prop"
             isint = lambda t: t in ("Int",)  # noqa
             if isinstance(n.op, (ast.Add, ast.Sub, ast.Mult)):
                 op = {ast.Add: "+", ast.Sub: "-", ast.Mult: "*"}[type(n.op)]
